@@ -1,0 +1,22 @@
+//go:build verif
+
+package spdxexp
+
+// VerifExpand exposes node.expand(true) to the verification harness kept outside this repository.
+// It is compiled only with the build tag "verif"; the package's behaviour is unchanged without it.
+// Each alternative is returned as the canonical strings of its terms.
+func VerifExpand(expression string) ([][]string, error) {
+	n, err := parse(expression)
+	if err != nil {
+		return nil, err
+	}
+	var out [][]string
+	for _, alternative := range n.expand(true) {
+		terms := make([]string, 0, len(alternative))
+		for _, term := range alternative {
+			terms = append(terms, *term.reconstructedLicenseString())
+		}
+		out = append(out, terms)
+	}
+	return out, nil
+}
